@@ -171,3 +171,28 @@ def is_none_test(t, x):
         if t[1] == ("is not",) or t[1] == ("!=",):
             return False
     return None
+
+
+def norm_sub(t):
+    """Normalise a `<pattern>.sub(...)` call term: (receiver, repl, string, count) or None.
+    Accepts positional and keyword spellings (repl=, string=, count=)."""
+    if not (is_call(t) and t[1][0] == "attr" and t[1][2] == "sub"):
+        return None
+    pos = list(t[2])
+    kw = dict(t[3])
+    names = ["repl", "string", "count"]
+    vals = {}
+    for n, v in zip(names, pos):
+        vals[n] = v
+    for k, v in kw.items():
+        if k not in names or k in vals:
+            return None
+        vals[k] = v
+    if len(pos) > 3 or "repl" not in vals or "string" not in vals:
+        return None
+    return t[1][1], vals["repl"], vals["string"], vals.get("count")
+
+
+def group0(t, m):
+    """t is m.group(0) or m.group() or m[0]"""
+    return t in (("call", ("attr", m, "group"), (("const", 0),), ()), ("call", ("attr", m, "group"), (), ()), ("sub", m, ("const", 0)))
